@@ -331,6 +331,11 @@ def judge_set(ctx, shape, which, vals, value_kind, seed):
             value = xr.DataArray(base)           # dim_0, dim_1, ...
         else:
             value = base.astype(np.float32)
+    # templates are not always float64: integer label rasters, boolean masks, float32 spectrograms. The write is the slice
+    # assignment numpy performs on the array AS IT IS (the reference in the monitor applies the same assignment to a copy)
+    adt = [None, None, "int64", "float32", "bool", "int16"][(seed >> 3) % 6]
+    if adt is not None and value_kind in ("scalar", "vector", "tuple", "zero_d_array", "float32_array", "leading_singleton_axes"):
+        arr = arr.copy(data=(arr.data * 10).astype(adt))
     spec = {"kind": "set", "shape": list(shape), "which": list(which), "vals": list(vals), "value_kind": value_kind, "seed": seed}
     try:
         O.set_value_at_pos(arr, value, **query)
